@@ -225,8 +225,15 @@ func (c *Ctx) finish(verifDir string, spec propSpec, start time.Time, loadErr er
 		rules = append(rules, r)
 	}
 	sort.Strings(rules)
+	failing := map[string]bool{}
+	for _, o := range c.Obls {
+		if o.Status != OK {
+			failing[o.Rule] = true
+		}
+	}
 	for _, r := range rules {
-		if counts[r] < c.MinCounts[r] {
+		// a rule that already reports a violation explains its own low count
+		if counts[r] < c.MinCounts[r] && !failing[r] {
 			c.und(r, "vacuity guard", "", fmt.Sprintf("rule matched %d instance(s), expected at least %d: the anchors it is built on are gone", counts[r], c.MinCounts[r]))
 		}
 	}
